@@ -3,5 +3,6 @@ NEXT Next
 INVARIANT Inv
 CHECK_DEADLOCK FALSE
 CONSTANTS
-  Mode = "probe"
-  Big = FALSE
+  MaxLen = 4
+  FullLen = 2
+  MaxLists = 3
